@@ -88,7 +88,15 @@ func (sr *SR) parseWKTDatum(secName []string, secData string) error {
 		}
 	case "TOWGS84":
 		s := strings.Split(secData, ",")
-		sr.DatumParams = make([]float64, len(s))
+		// As for +towgs84: terms that are not given are zero, and the list
+		// has three terms, or seven if a rotation or the scale is given.
+		n := len(s)
+		if n < 3 {
+			n = 3
+		} else if n > 3 && n < 7 {
+			n = 7
+		}
+		sr.DatumParams = make([]float64, n)
 		for i, ss := range s {
 			var err error
 			sr.DatumParams[i], err = strconv.ParseFloat(strings.TrimSpace(ss), 64)
